@@ -22,6 +22,7 @@ ASSUMPTIONS = [
     'parameterised haze: layers whose centre pressure lies in the window carry Q_ext(nu) pi a^2 chi with Q_ext = 5/(Q x^-4 + x^0.2), x = 2 pi a / lambda; layers wholly outside carry 0; for an inverted pair only the outside clause is judged',
     'cloud deck: only the transit geometry is judged (emission indexes per-layer opacities differently)',
 ]
+RULE = RULE + ' ' + 'Also: the pressure range of the same model moved under a cloud deck, layer pressures as whole-number pascals in an integer array profile; cases stratified by kind.'
 REQUIRED = {'pressure:integer-array': 0.1, 'cloud-range-moved:deck-inside': 0.02, 'kind:clouds': 0.2, 'kind:flat': 0.2, 'kind:lee': 0.2, 'bound:unset': 0.08, 'window:inside': 0.04}
 # coverage-guided extra (thorough tier): pure-Python taurex modules on this property's path, instrumented by atheris
 FUZZ = {'include': ['taurex.contributions.simpleclouds', 'taurex.contributions.flatmie', 'taurex.contributions.leemie'], 'runs': 12000, 'workers': 4}
